@@ -246,14 +246,35 @@ func parseLiteral(token lex.Token) (e any, err error) {
 	}
 
 	// if it contains unescaped wildcards then it is a wildcard string
-	if strings.ContainsAny(token.Val, "*?") {
+	unescaped, hasWildcard := unescape(token.Val)
+	if hasWildcard {
 		return expr.WILD(token.Val), nil
 	}
 
 	// if it contains an escape string then strip it out now
 	if strings.Contains(token.Val, `\`) {
-		return expr.Lit(strings.ReplaceAll(token.Val, `\`, "")), nil
+		return expr.Lit(unescaped), nil
 	}
 
 	return expr.Lit(token.Val), nil
+}
+
+// unescape removes each escaping backslash and keeps the character it escapes (so an escaped
+// backslash stays a backslash). It also reports whether a wildcard character occurs unescaped.
+func unescape(in string) (out string, hasWildcard bool) {
+	buf := make([]byte, 0, len(in))
+	for i := 0; i < len(in); i++ {
+		if in[i] == '\\' {
+			i++
+			if i < len(in) {
+				buf = append(buf, in[i])
+			}
+			continue
+		}
+		if in[i] == '*' || in[i] == '?' {
+			hasWildcard = true
+		}
+		buf = append(buf, in[i])
+	}
+	return string(buf), hasWildcard
 }
